@@ -139,6 +139,21 @@ impl SigProver {
         let s2 = (G1Projective::from(sig.1) + G1Projective::from(sig.0) * sch.bf) * r;
         SigProver { sch, s1, s2 }
     }
+    /// like `commit`, with the signature randomiser chosen by the caller
+    pub fn commit_with_r(
+        rng: &mut impl RngCore,
+        pk: &PkAtoms,
+        msg: Vec<Scalar>,
+        sig: (G1Affine, G1Affine),
+        cs: &[Option<Scalar>],
+        r: Scalar,
+    ) -> Self {
+        let (h, gs) = g2_generators(pk);
+        let sch = Schnorr::commit(rng, h, gs, msg, cs);
+        let s1 = G1Projective::from(sig.0) * r;
+        let s2 = (G1Projective::from(sig.1) + G1Projective::from(sig.0) * sch.bf) * r;
+        SigProver { sch, s1, s2 }
+    }
     pub fn fill(&self, tr: &mut Trace, p: &str, r: &Resp) -> Result<(), String> {
         tr.fset(&format!("{}/blinded_signature/sigma1", p), &self.s1.to_affine().to_compressed())?;
         tr.fset(&format!("{}/blinded_signature/sigma2", p), &self.s2.to_affine().to_compressed())?;
@@ -162,6 +177,28 @@ impl RangeProver {
             .iter()
             .zip(sig_idx.iter())
             .map(|(d, i)| SigProver::commit(rng, &m.range_pk, vec![*d], m.digit_sigs[*i % m.digit_sigs.len()], &[None]))
+            .collect();
+        RangeProver {
+            digits: ds,
+            radix: m.digit_sigs.len() as u64,
+        }
+    }
+    /// like `commit`, but the digit proofs at the positions in `shared` use one common signature
+    /// randomiser (a prover is free to do that)
+    pub fn commit_shared(rng: &mut impl RngCore, m: &Merchant, digits: &[Scalar], sig_idx: &[usize], shared: &[usize]) -> Self {
+        let common = Scalar::random(&mut *rng);
+        let ds = digits
+            .iter()
+            .zip(sig_idx.iter())
+            .enumerate()
+            .map(|(j, (d, i))| {
+                let sig = m.digit_sigs[*i % m.digit_sigs.len()];
+                if shared.contains(&j) {
+                    SigProver::commit_with_r(rng, &m.range_pk, vec![*d], sig, &[None], common)
+                } else {
+                    SigProver::commit(rng, &m.range_pk, vec![*d], sig, &[None])
+                }
+            })
             .collect();
         RangeProver {
             digits: ds,
